@@ -579,4 +579,74 @@ theorem walkCfiReal_bridge (w : CfiStackWalker) (fwd : List (Cfi.Name × UInt64)
               rw [this]
               exact hself
 
+/-! ## `callee_forwarded_regs` and `clear_stack_win_caller_registers`: helpers -/
+
+theorem toSet_aux (l acc : List String) (r : String) : r ∈ l.foldl setInsert acc ↔ r ∈ acc ∨ r ∈ l := by
+  induction l generalizing acc with
+  | nil => simp
+  | cons a t ih =>
+    rw [List.foldl_cons, ih]
+    have : r ∈ setInsert acc a ↔ r ∈ acc ∨ r = a := by
+      have := setInsert_contains acc a r
+      rw [Bool.eq_iff_iff] at this
+      simp only [List.contains_iff_mem, Bool.or_eq_true, decide_eq_true_eq] at this
+      rw [this]; exact or_comm
+    rw [this, List.mem_cons]
+    constructor
+    · rintro ((h | h) | h)
+      · exact .inl h
+      · exact .inr (.inl h)
+      · exact .inr (.inr h)
+    · rintro (h | h | h)
+      · exact .inl (.inl h)
+      · exact .inl (.inr h)
+      · exact .inr h
+
+theorem mem_toSet (l : List String) (r : String) : r ∈ toSet l ↔ r ∈ l := by
+  unfold toSet; rw [toSet_aux]; simp
+
+theorem filterO_ok (f : String → Outcome Bool) (g : String → Bool) (l : List String)
+    (h : ∀ r ∈ l, f r = .ok (g r)) : filterO f l = .ok (l.filter g) := by
+  induction l with
+  | nil => rfl
+  | cons a t ih =>
+    unfold filterO
+    rw [h a List.mem_cons_self, ih (fun r hr => h r (List.mem_cons_of_mem _ hr))]
+    cases hg : g a <;> simp [hg]
+
+theorem saved_known (k : Kind) {r : String} (hr : r ∈ Gen.CfiWalkerConsts.calleeSaved k.file) :
+    r ∈ registers k.rawCtx := by
+  have := calleeSaved_canonical k
+  simp only [Bool.and_eq_true, List.all_eq_true] at this
+  have := this.1 r hr
+  simp only [List.contains_eq_mem, decide_eq_true_eq] at this
+  exact this.1.1
+
+theorem sameReg_self {c : Ctx} {r : String} (hr : r ∈ knownNames c) : sameReg c r r = true := by
+  obtain ⟨cell, _, f⟩ := known_facts hr
+  simp [sameReg, f.getCell]
+
+theorem clearAllReal_view (w : CfiStackWalker) (names : List String)
+    (hn : ∀ n ∈ names, w.cpu.canon n = some n) :
+    ∃ vs, clearAllReal names w = .ok (w.withCaller w.callerCtx vs) ∧
+      ∀ s, callerView (w.withCaller w.callerCtx vs) s = if s ∈ names then none else callerView w s := by
+  induction names generalizing w with
+  | nil => exact ⟨w.callerValidity, rfl, fun s => by simp [withCaller_self]⟩
+  | cons n t ih =>
+    have hcn := hn n List.mem_cons_self
+    obtain ⟨vs, h1, h2⟩ := ih (w.withCaller w.callerCtx (setRemove w.callerValidity n))
+      (fun m hm => hn m (List.mem_cons_of_mem _ hm))
+    refine ⟨vs, ?_, ?_⟩
+    · unfold clearAllReal
+      rw [clearCallerRegister_eq, hcn]
+      exact h1
+    · intro s
+      have := h2 s
+      rw [callerView_clear] at this
+      rw [show (w.withCaller w.callerCtx vs) = ((w.withCaller w.callerCtx (setRemove w.callerValidity n)).withCaller
+        (w.withCaller w.callerCtx (setRemove w.callerValidity n)).callerCtx vs) from rfl, this]
+      by_cases hs : s = n
+      · simp [hs]
+      · by_cases hst : s ∈ t <;> simp [hs, hst]
+
 end MdModel.CfiWalker
